@@ -32,6 +32,9 @@ func runC08(p *core.Prog, r *core.Report) {
 	c07R5(p, r, "C08.R7")
 	c08R8(p, r, "C08.R8")
 	c08R9(p, r, "C08.R9")
+	// referrers pushed as children are reachable for the mark phase only through the fallback index:
+	// its read-modify-write must not lose an entry (shared with C10.R3)
+	c10R3(p, r, "C08.R10")
 }
 
 // c08R8: an index entry is marked because the index lists it, not because it could be loaded. Before
